@@ -323,7 +323,8 @@ def _run_base(ctx):
         gen = cpr.value.generators[0]
         # in place (handlers = [... for ... in handlers], under base_url != '/') or from a route table (handlers = [(prefix + p, h, params) for p, h in routes])
         in_place = dotted(gen.iter) == hv
-        table = isinstance(gen.iter, ast.Name) and any(k == 'assign' and isinstance(v, (ast.List, ast.Tuple)) for v, k, st_ in local_defs(ma).get(gen.iter.id, []))
+        table = isinstance(gen.iter, ast.Name) and (any(k == 'assign' and isinstance(v, (ast.List, ast.Tuple)) for v, k, st_ in local_defs(ma).get(gen.iter.id, [])) or
+                                                    isinstance((repo.mod(SRV).assigns.get(gen.iter.id) or [None])[-1], (ast.List, ast.Tuple)))
         ok = (in_place or table) and not gen.ifs
         guards = cond_guards(g, cpr)
         mdefs = local_defs(ma)
